@@ -256,8 +256,9 @@ public:
   /// \brief Clear entire cache with optional statistics reset
   ///
   /// This method clears all cached entries and resets current entry counters.
-  /// The cleanupCallback is preserved and will continue to function correctly
-  /// after reinitializing the ExpiringCache with the same TTL and callback.
+  /// The cleanupCallback is preserved and will continue to function correctly;
+  /// the underlying ExpiringCache is emptied in place, so clear() is safe to call
+  /// concurrently with get()/put()/remove().
   ///
   /// \param resetHistoricalStats If true, reset all statistics including historical counters
   ///                            If false, preserve hits/misses/insertions for monitoring
@@ -279,10 +280,9 @@ public:
       stats_.negative_replacements.store(0);
     }
 
-    // ExpiringCache doesn't have a clear method, so we create a new instance
-    // The cleanupCallback_ is preserved and passed to initializeCache()
-    // The defaultTtlSeconds_ is also preserved from construction time
-    initializeCache();
+    // Empty the ExpiringCache in place, under its own lock: replacing the object here would
+    // destroy it under concurrent get()/put()/remove() callers that are still using it
+    cache_->clear();
   }
 
   /// \brief Get current cache statistics
